@@ -53,6 +53,9 @@ func decCompare(c *h.Ctx, kind string, x []byte) string {
 		if !ok {
 			return "either-rejected"
 		}
+		if rm != nil && rm.SType == 0 {
+			return "either-accepted" // data message nested beyond the documented limit
+		}
 		want := append([]byte{0, 0, 0, 10}, x[4:14]...)
 		if m == nil || m.Type() != ref.STypeName(x[8], x[9]) || !bytes.Equal(m.ToBytes(), want) {
 			c.Fail("control-with-body-misdecoded", decIn(kind, x), fmt.Sprintf("accepted as %v", m))
@@ -392,6 +395,58 @@ func init() {
 					x = setLen(append(x, bodies[d[2]]...))
 					c.Case(0, true, decCompare(c, "header", x))
 				}})
+			// the documented nesting limit: up to ref.NestingLimit nested lists a well-formed message is accepted and
+			// re-encodes to itself, beyond it either answer is taken (the printed form of such a tree is not compared:
+			// printing it costs depth^2 characters)
+			nestDepths := []int{1, 2, 3, 10, 100, 1000, 4096, ref.NestingLimit - 1, ref.NestingLimit, ref.NestingLimit + 1, ref.NestingLimit + 2}
+			nestShapes := []string{"L[1] chain around <U1 7>", "L[1] chain ending in L[0]", "L[2] chain: every list holds <A \"x\"> and the next list, innermost L[0]", "L[2] chain: every list holds the next list and then <B 1>, innermost <BOOLEAN T>", "one list of that many empty lists (siblings: nesting depth 2)"}
+			sp = append(sp, h.Space{Name: "nesting-depth-boundary", Count: product(len(nestDepths), len(nestShapes)), ChunkHint: 1,
+				Describe: func(i uint64) interface{} {
+					d := unrank(i, len(nestDepths), len(nestShapes))
+					return fmt.Sprintf("%d nested lists, %s", nestDepths[d[0]], nestShapes[d[1]])
+				},
+				Run: func(c *h.Ctx, i uint64) {
+					d := unrank(i, len(nestDepths), len(nestShapes))
+					depth := nestDepths[d[0]]
+					var text, tail []byte
+					switch d[1] {
+					case 0:
+						text = bytes.Repeat([]byte{0x01, 0x01}, depth)
+						text = append(text, 0xA5, 0x01, 0x07)
+					case 1:
+						text = bytes.Repeat([]byte{0x01, 0x01}, depth-1)
+						text = append(text, 0x01, 0x00)
+					case 2:
+						text = bytes.Repeat([]byte{0x01, 0x02, 0x41, 0x01, 'x'}, depth-1)
+						text = append(text, 0x01, 0x00)
+					case 3:
+						text = bytes.Repeat([]byte{0x01, 0x02}, depth)
+						text = append(text, 0x25, 0x01, 0x01)
+						tail = bytes.Repeat([]byte{0x21, 0x01, 0x01}, depth)
+					case 4:
+						text = append(ref.ItemHeader(ref.L, depth, 0), bytes.Repeat([]byte{0x01, 0x00}, depth)...)
+					}
+					nesting := depth
+					if d[1] == 4 {
+						nesting = 2
+					}
+					x := hdr(1, 1, append(text, tail...))
+					desc := fmt.Sprintf("%d nested lists, %s (%d bytes)", depth, nestShapes[d[1]], len(x))
+					m, ok, pan := parseSafe(x)
+					c.Ops(1)
+					switch {
+					case pan != "":
+						c.Fail("panic-escaped:nesting", desc, pan)
+					case nesting > ref.NestingLimit:
+						c.Case(0, true, fmt.Sprintf("beyond-limit-accepted=%v", ok))
+						return
+					case !ok || m == nil:
+						c.Fail("refused-wellformed:nesting", desc, "well-formed message within the documented nesting limit refused")
+					case !bytes.Equal(m.ToBytes(), x):
+						c.Fail("reencode-differs:nesting", desc, fmt.Sprintf("ToBytes() has %d bytes, first difference at %d", len(m.ToBytes()), firstDiff(m.ToBytes(), x)))
+					}
+					c.Case(0, true, "within-limit")
+				}})
 			// message-length field: every value of each of the 4 length bytes, and short inputs
 			sp = append(sp, h.Space{Name: "message-length-field-and-short-inputs", Count: 4*256 + 20,
 				Describe: func(i uint64) interface{} {
@@ -409,4 +464,16 @@ func init() {
 			return sp
 		},
 	})
+}
+
+func firstDiff(a, b []byte) int {
+	for i := 0; i < len(a) && i < len(b); i++ {
+		if a[i] != b[i] {
+			return i
+		}
+	}
+	if len(a) < len(b) {
+		return len(a)
+	}
+	return len(b)
 }
